@@ -9,8 +9,8 @@ the chosen providers are pairwise distinct, none is in the ignore list (the prov
 already hold or timed out on a shard of the order), each is a registered node that is online,
 serving storage, accepting orders, with reputation ≥ 8000 and free pledged capacity ≥ size, and
 no more than `count` are returned. Under-replication is rejected by `getSps` (`C15_getSps_rejects`).
-Termination of the selection loops is C02's concern (`C02_randomIndex_total` is by construction:
-`randomIndexLoop` is accepted by Lean's termination checker without fuel).
+Termination of the selection loops is C02's concern (both selection loops are total functions of the model
+after the `fix:` commits of F03 and F04).
 -/
 namespace SaoVerif
 open List
@@ -25,40 +25,34 @@ def C15_statement : Prop :=
       s'.nodes = s.nodes ∧ s'.pledges = s.pledges
 
 theorem pickSuper_sound (s0 s' : State) (r0 : Nat) (ignore : List Addr) (size : Int) (n : Node)
-    (h : pickSuper s0 r0 ST_SELECT 8000 ignore size = some (s', some n)) :
+    (h : pickSuper s0 r0 ST_SELECT 8000 ignore size = (s', some n)) :
     n ∈ s0.nodes ∧ n.role = 1 ∧ n.creator ∉ ignore ∧ Eligible s0 n size := by
   unfold pickSuper at h
   simp only at h
   split at h
   · simp at h
-  · split at h
-    · simp at h
-    · simp at h
-    · rename_i i hi
-      simp only [Option.some.injEq, Prod.mk.injEq] at h
-      obtain ⟨_, hget⟩ := h
-      obtain ⟨m, hm, hel⟩ := nextSuperLoop_sound s0 _ ignore size r0 superFuel r0 i hi
-      rw [hget] at hm
-      cases hm
-      have hmem : n ∈ s0.nodes.filter (·.role = 1) := List.mem_of_getElem? hget
-      have hmem' := List.mem_filter.mp hmem
-      have hel' := superEligible_imp s0 n ignore size hel
-      exact ⟨hmem'.1, by simpa using hmem'.2, hel'.1, hmem'.1, hel'.2.1, hel'.2.2.1, hel'.2.2.2⟩
+  · rename_i i hi
+    simp only [Prod.mk.injEq] at h
+    obtain ⟨_, hget⟩ := h
+    obtain ⟨m, hm, hel⟩ := nextSuperLoop_sound s0 _ ignore size r0 _ r0 i hi
+    rw [hget] at hm
+    cases hm
+    have hmem : n ∈ s0.nodes.filter (·.role = 1) := List.mem_of_getElem? hget
+    have hmem' := List.mem_filter.mp hmem
+    have hel' := superEligible_imp s0 n ignore size hel
+    exact ⟨hmem'.1, by simpa using hmem'.2, hel'.1, hmem'.1, hel'.2.1, hel'.2.2.1, hel'.2.2.2⟩
 
 theorem pickSuper_frame (s0 s' : State) (r0 : Nat) (ignore : List Addr) (size : Int) (o : Option Node)
-    (h : pickSuper s0 r0 ST_SELECT 8000 ignore size = some (s', o)) :
+    (h : pickSuper s0 r0 ST_SELECT 8000 ignore size = (s', o)) :
     s'.nodes = s0.nodes ∧ s'.pledges = s0.pledges ∧ s'.seed = s0.seed := by
   unfold pickSuper at h
   simp only at h
   split at h
   · simp at h; obtain ⟨h1, _⟩ := h; subst h1; simp
-  · split at h
-    · simp at h
-    · simp at h; obtain ⟨h1, _⟩ := h; subst h1; simp
-    · simp at h; obtain ⟨h1, _⟩ := h; subst h1; simp
+  · simp at h; obtain ⟨h1, _⟩ := h; subst h1; simp
 
 theorem getNextSuperNode_sound (s s' : State) (ignore : List Addr) (size : Int) (n : Node)
-    (h : getNextSuperNode s ST_SELECT 8000 ignore size = some (s', some n)) :
+    (h : getNextSuperNode s ST_SELECT 8000 ignore size = (s', some n)) :
     n ∈ s.nodes ∧ n.role = 1 ∧ n.creator ∉ ignore ∧ Eligible s n size := by
   unfold getNextSuperNode at h
   split at h
@@ -67,7 +61,7 @@ theorem getNextSuperNode_sound (s s' : State) (ignore : List Addr) (size : Int) 
   · exact pickSuper_sound _ _ _ _ _ _ h
 
 theorem getNextSuperNode_frame (s s' : State) (ignore : List Addr) (size : Int) (o : Option Node)
-    (h : getNextSuperNode s ST_SELECT 8000 ignore size = some (s', o)) :
+    (h : getNextSuperNode s ST_SELECT 8000 ignore size = (s', o)) :
     s'.nodes = s.nodes ∧ s'.pledges = s.pledges ∧ s'.seed = s.seed := by
   unfold getNextSuperNode at h
   split at h
@@ -221,18 +215,18 @@ theorem Eligible_congr (s s1 : State) (n : Node) (size : Int) (hn : s1.nodes = s
 theorem C15_full : C15_statement := by
   intro s s' count ignore size sps hwf h
   unfold randomSP at h
-  split at h
-  · simp [HANG] at h
-  · rename_i s1 sup hsup
-    obtain ⟨hfn, hfp, _⟩ := getNextSuperNode_frame _ _ _ _ _ hsup
-    have hsupfacts : ∀ n, sup = some n → n ∈ s1.nodes ∧ n.role = 1 ∧ n.creator ∉ ignore ∧ Eligible s1 n size := by
-      intro n hn; subst hn
-      obtain ⟨a, b, c, d⟩ := getNextSuperNode_sound _ _ _ _ _ hsup
-      refine ⟨hfn ▸ a, b, c, ?_⟩
-      exact Eligible_congr s1 s n size hfn.symm hfp.symm d
-    obtain ⟨r1, r2, r3, r4⟩ := randomSPWith_sound s1 s' sup count ignore size sps (hfn ▸ hwf) hsupfacts h
-    subst r4
-    exact ⟨r1, fun n hn => ⟨(r2 n hn).1, Eligible_congr s s' n size hfn hfp (r2 n hn).2⟩, r3, hfn, hfp⟩
+  generalize hsup : getNextSuperNode s ST_SELECT 8000 ignore size = r at h
+  obtain ⟨s1, sup⟩ := r
+  simp only at h
+  obtain ⟨hfn, hfp, _⟩ := getNextSuperNode_frame _ _ _ _ _ hsup
+  have hsupfacts : ∀ n, sup = some n → n ∈ s1.nodes ∧ n.role = 1 ∧ n.creator ∉ ignore ∧ Eligible s1 n size := by
+    intro n hn; subst hn
+    obtain ⟨a, b, c, d⟩ := getNextSuperNode_sound _ _ _ _ _ hsup
+    refine ⟨hfn ▸ a, b, c, ?_⟩
+    exact Eligible_congr s1 s n size hfn.symm hfp.symm d
+  obtain ⟨r1, r2, r3, r4⟩ := randomSPWith_sound s1 s' sup count ignore size sps (hfn ▸ hwf) hsupfacts h
+  subst r4
+  exact ⟨r1, fun n hn => ⟨(r2 n hn).1, Eligible_congr s s' n size hfn hfp (r2 n hn).2⟩, r3, hfn, hfp⟩
 
 /-- non-vacuity: a concrete population on which `RandomSP` returns two distinct providers -/
 def exNode (a : Nat) : Node := { creator := a, peer := 0, reputation := 10000, status := 15, lastAlive := 1, txAddresses := [], role := 0, validator := 0, desc := 0 }
